@@ -2,7 +2,7 @@
 // One case per input line, one result line per case.  D = EXPORT_VERTEX_DIMENSIONALITY values per vertex
 // (x y, and z in USINGZ builds).  int64 values in decimal; doubles always as their 64-bit pattern (unsigned
 // decimal) so that NaN payloads and the reinterpreted z of USINGZ builds are compared as raw bits.
-//   <p64>  = n then n*D integers            <pD> = n then per vertex: xbits ybits (z as integer)
+//   <p64>  = n then n*D integers            <pD> = n then per vertex: xbits ybits (zbits = z as unsigned 64-bit)
 //   <ps64> = npaths then <p64>...           <psD> likewise
 // Raw arrays returned by the library are printed as `n v0 .. v(n-1)` with n = the length the array states in its
 // first element (NULL for a null pointer).  Native results are printed in the same vertex format as the inputs
@@ -30,7 +30,7 @@ static Point64 rd_pt64(Toks& t) {
 static PointD rd_ptD(Toks& t) {
   double x = dbl_of(t.u64()), y = dbl_of(t.u64());
 #ifdef USINGZ
-  int64_t z = t.i64(); return PointD(x, y, z);
+  int64_t z = (int64_t)t.u64(); return PointD(x, y, z);   // z of a double vertex travels as its unsigned 64-bit pattern
 #else
   return PointD(x, y);
 #endif
